@@ -32,7 +32,9 @@ def lines(repo, read, find, report):
     dig = find("c07_param_bigint_digit_bits", t, r"MPI_Type_contiguous\(\s*bigunsignedint<k>::n\s*,\s*MPITraits<\s*std::uint(\d+)_t\s*>::getType\(\)", 16, int)
     pre = _re.findall(r"getPackSize\(\s*1\s*,\s*_comm\s*,\s*(\w+)\s*\)", p) + _re.findall(r"MPI_Pack\(\s*&size\s*,\s*1\s*,\s*(\w+)\s*,", p) \
         + _re.findall(r"&size\s*,\s*1\s*,\s*(\w+)\s*,\s*_comm\s*\)", p)
-    prefix = _MT.index(pre[0]) if len(pre) >= 3 and len(set(pre)) == 1 and pre[0] in _MT else (4 if not pre else 99)
+    # all located sites must agree on one type; HOW MANY sites there are depends on how the code is factored (merged overloads,
+    # extracted helpers) and is not part of the model: a behaviour-preserving rewrite that merged two sites raised an alarm before
+    prefix = _MT.index(pre[0]) if len(pre) >= 1 and len(set(pre)) == 1 and pre[0] in _MT else (4 if not pre else 99)
     report["c07_param_pack_prefix_type"] = {"value": prefix, "source": "extracted (%d sites)" % len(pre) if pre else "DEFAULT (not located in source)"}
     m = _re.search(r"size_t\(\s*_position\s*\+\s*size\s*\)\s*(>=|>|!=|==|<=|<)\s*_buffer\.size\(\)", p)
     grow = (m.group(1) == ">") if m else True
